@@ -624,6 +624,20 @@ func (root *Root) resolveField(
 	}
 	var ea2 []error
 	switch field.Name {
+	case "__typename", "__type", "__schema":
+		// The meta-fields are not in the field list of the container so the
+		// arguments have not been checked yet. Only __type declares one.
+		for _, av := range field.Args {
+			if av != nil && (field.Name != "__type" || av.Arg != nameStr) {
+				ea = append(ea, valError(av.line, av.col, "%s is not an argument to %s", av.Arg, field.Name))
+			}
+		}
+		if 0 < len(ea) {
+			Errors(ea).in(field.key())
+			return
+		}
+	}
+	switch field.Name {
 	case "__typename":
 		result[field.key()] = t.Name()
 		return nil
